@@ -386,7 +386,7 @@ const fn flavour(d: Desc, seed: u64, i: u64) -> Desc {
                 d.prefix = b'd';
             }
             if r & 1024 != 0 && r & 2048 != 0 {
-                d.suffix = b'd';
+                d.suffix = if d.prefix == b'd' { b'm' } else { b'd' };
             }
         },
     }
